@@ -27,7 +27,7 @@ FINGERPRINTS = [
          "extract_linter_sections", "identify_missing_sections", "merge_config_sections", "_insert_before_global_settings",
          "_find_global_settings_position", "perform_merge", "_parse_existing_config", "_build_missing_sections_dict"]),
     (C, ["config_get", "config_set", "config_reset", "init_config", "_convert_value_type", "_validate_and_report_errors",
-         "_save_and_report_success", "_generate_config_content", "_write_config_file"]),
+         "_save_and_report_success", "_generate_config_content", "_write_config_file", "_run_interactive_preset_selection"]),
     (S, ["load_config", "_load_from_explicit_path", "_load_from_default_locations", "_try_load_from_location", "_load_and_merge_config",
          "save_config", "_validate_before_save", "_write_config_file", "validate_config", "merge_configs"]),
     (P, ["parse_config_file", "_normalize_config_keys", "parse_yaml", "parse_json"]),
@@ -578,6 +578,30 @@ def suffix_handling():
             + defn("save_error_exit", "nat", ms.group(1)) + defn("reset_error_exit", "nat", mr.group(1)))
 
 
+def init_entry_shape():
+    """init_config: the preset is chosen first (flag or prompt), THEN `exists and not force` decides merge vs fresh file - two
+    independent statements; the prompt offers exactly the presets and returns the answer (default on an empty answer)"""
+    cm = parse(C)
+    b = [ast.unparse(x) for x in _body(find_func(cm, "init_config"))]
+    exp = ["output_path = Path(output)",
+           "if not non_interactive:\n    preset = _run_interactive_preset_selection(preset)",
+           "if output_path.exists() and (not force):\n    perform_merge(output_path, preset, output, _generate_config_content)\n    return",
+           "config_content = _generate_config_content(preset)",
+           "_write_config_file(output_path, config_content, preset, output)"]
+    _expect(b == exp, f"init_config: control shape differs from the modelled entry point: {b}")
+    sel = _body(find_func(cm, "_run_interactive_preset_selection"))
+    _expect(all(isinstance(x, ast.Expr) and ast.unparse(x.value.func) == "click.echo" for x in sel[:-3]), "_run_interactive_preset_selection: banner of click.echo calls")
+    t = [ast.unparse(x) for x in sel[-3:]]
+    _expect(t[1] == "result: str = click.prompt('Choose preset', type=preset_choices, default=default_preset)" and t[2] == "return result"
+            and t[0].startswith("preset_choices = click.Choice(["), f"_run_interactive_preset_selection: prompt shape: {t}")
+    ch = sel[-3].value
+    _expect(len(ch.args) == 1 and not ch.keywords, "click.Choice(<list>) without options (case-sensitive)")
+    choices = str_elems(ch.args[0])
+    wf = ast.unparse(find_func(cm, "_write_config_file"))
+    _expect("output_path.write_text(content, encoding='utf-8')" in wf, "_write_config_file writes the content as is")
+    return defn("prompt_choices", "list string", coq_str_list(choices)) + defn("init_entry_shape_ok", "bool", "true")
+
+
 def convert_value():
     f = find_func(parse(C), "_convert_value_type")
     b = _body(f)
@@ -618,4 +642,5 @@ ITEMS = [
     ("convert_value", convert_value),
     ("config_locations", config_locations),
     ("suffix_handling", suffix_handling),
+    ("init_entry_shape", init_entry_shape),
 ]
